@@ -40,6 +40,7 @@ func runC09(p *load.Program, r *oblig.Report) {
 	c07PutDiscipline(p, r, "C09.R5 Close hands the open batch to the sender before the queue is closed")
 	c09ReaderRunDefers(p, r)
 	c09FetchAfterClose(p, r)
+	c09PoolReady(p, r)
 }
 
 // c09ReaderRunDefers: Reader.Close waits for r.done; the group (LeaveGroup, coordinator connection) must be closed
@@ -1040,4 +1041,40 @@ func c09FetchAfterClose(p *load.Program, r *oblig.Report) {
 	}
 	r.Check(ok, rule, "kafka.(*Reader).FetchMessage returns io.EOF once the reader is closed, whatever is still queued", p.Pos(fn.Pos()),
 		"if r.closed { return Message{}, io.EOF } before receiving from r.msgs", "the closed edge still reaches the receive from the message queue")
+}
+
+// c09PoolReady: a round trip waits for the pool's first metadata attempt to complete (p.ready) or for its context.
+// Every exit of connPool.update therefore signals ready — also the first attempt when it failed — except where the
+// pool already holds metadata (ready was signalled when it was stored).
+func c09PoolReady(p *load.Program, r *oblig.Report) {
+	const rule = "C09.R4 blocking waits on the caller's goroutine honour a context"
+	fn := p.Func("", "(*connPool).update")
+	setReady := p.Func("", "(*connPool).setReady")
+	if fn == nil || setReady == nil {
+		r.Lost(rule, "kafka.(*connPool).update / setReady")
+		return
+	}
+	isReady := func(i ssa.Instruction) bool {
+		switch x := i.(type) {
+		case *ssa.Defer:
+			return an.StaticCalleeIs(&x.Call, setReady)
+		case *ssa.Call:
+			return an.StaticCalleeIs(&x.Call, setReady)
+		}
+		return false
+	}
+	// do not follow the edge on which the state already has metadata
+	edge := func(from *ssa.BasicBlock, si int) bool {
+		_, ci := an.IfCond(from)
+		if e := ci.Edge(token.NEQ); e >= 0 && an.IsNilConst(ci.Y) && strings.HasSuffix(clean(an.Shape(ci.X)), ".metadata") {
+			return si != e
+		}
+		return true
+	}
+	ok, bad := an.MustPass(fn, an.EntryPoint(fn), isReady, edge)
+	where := ""
+	if bad != nil {
+		where = "the exit at " + p.Pos(bad.Pos()) + " is reached without setReady although the pool has no metadata yet"
+	}
+	r.Check(ok, rule, "kafka.(*connPool).update signals ready on every exit, unless the pool already holds metadata", p.Pos(fn.Pos()), "defer p.setReady() on the path of a failed first attempt too", where)
 }
